@@ -38,3 +38,32 @@ Proof.
   apply (list_eqb_sound _ (prod_eqb_sound _ _ nat_eqb_sound value_seqb_sound)) in H2. exists e. auto.
 Qed.
 Print Assumptions C03_arguments_are_reference_arguments.
+
+(* ---- kind F: ALL plain programs (no switch, no one-of, no body asking for another iteration; any size and shape, any retry /
+   default settings, execution modes, event managers, stores and collaborator faults), ALL schedules incl. cancellation ----
+   no body and no get_default is ever invoked with a failure object or a Recurrent marker as an argument (one clause of C03;
+   the other clauses -- one keyword per parameter, final values, input node gets input_kwargs -- are kind E above). *)
+From MLPE Require Import Proofs.PlainWorld Proofs.PlainLive.
+
+Theorem C03_on_plain_programs_no_failure_object_or_marker_as_argument :
+  forall P, plain_prog P ->
+    forall st i k kw p v, reachable P st -> In (OStart i k kw) (st_trace st) \/ In (ODefault i kw) (st_trace st) -> In (p, v) kw ->
+      is_rec v = false /\ is_exn v = false.
+Proof.
+  intros P HP st i k kw p v Hr Hin Hv.
+  assert (H : kw_clean kw = true).
+  { destruct Hin as [Hin|Hin]; exact (plain_prog_values_in_flight P st _ HP Hr Hin). }
+  unfold kw_clean in H. rewrite forallb_forall in H. specialize (H _ Hv). cbn [snd] in H.
+  split; [apply clean_not_rec|apply clean_not_exn]; exact H.
+Qed.
+Print Assumptions C03_on_plain_programs_no_failure_object_or_marker_as_argument.
+
+Example C03_plain_not_vacuous :
+  plain_prog cat_rhombus /\
+  existsb (fun o => match o with OStart 3 _ (_ :: _ :: _) => true | _ => false end) (st_trace (auto_run cat_rhombus 40 init_state)) = true /\
+  reachable cat_rhombus (auto_run cat_rhombus 40 init_state).
+Proof.
+  split; [|split; [vm_compute; reflexivity|apply auto_run_reachable, reach_init]].
+  split; [vm_compute; reflexivity|]. split; [|vm_compute; reflexivity].
+  apply dsl_body_clean. vm_compute. reflexivity.
+Qed.
